@@ -222,6 +222,14 @@ impl Decoder for FrameDecoder {
     type Error = Error;
 
     fn decode(&mut self, src: &mut BytesMut) -> Result<Option<Self::Item>, Self::Error> {
+        // The 4-byte size has been consumed by the length delimited codec. A frame whose
+        // size field is smaller than the mandatory 8-byte frame header is malformed
+        if src.len() < 4 {
+            return Err(Error::DecodeError(
+                "Frame is smaller than the frame header".to_string(),
+            ));
+        }
+
         let doff = src.get_u8();
         let ftype = src.get_u8();
         let channel = src.get_u16();
